@@ -26,20 +26,22 @@ class XMLReader(TextToModel):
         self.name_feature: dict[str, Feature] = {}
 
     def transform(self) -> FeatureModel:
-        rootcounter = 1
+        feature_model: Optional[FeatureModel] = None
         tree = ElementTree.parse(self.path)
         xml_root = tree.getroot()
-        # iterate over child of the xml root element
+        # iterate over child of the xml root element: first the feature tree...
         for child in xml_root:
             if child.tag.casefold() == 'feature':
-                rootcounter += 1
                 root = self.parse_feature(child, None)
                 feature_model = FeatureModel(root, [])
-            elif child.tag.casefold() == 'excludes' or child.tag.casefold() == 'requires':
-                ctc = self.parse_ctc(child)
-                feature_model.ctcs.append(ctc)
-            else:
+            elif child.tag.casefold() not in ('excludes', 'requires'):
                 print("This XML contains non supported elements", file=sys.stderr)
+        if feature_model is None:
+            raise FlamaException('The XML does not contain any feature')
+        # ...then the constraints, which refer to the features by name
+        for child in xml_root:
+            if child.tag.casefold() in ('excludes', 'requires'):
+                feature_model.ctcs.append(self.parse_ctc(child))
 
         return feature_model
 
